@@ -67,9 +67,9 @@ Scale_Exact == obs.inexact = 0
 Clauses ==
   [C03_StateOrder |-> C03_StateOrder(pre, st),
    C03_ClaimSound |-> C03_ClaimSound(pre, ev, st),
-   C03_ClaimComplete |-> C03_ClaimComplete(pre, ev),
+   C03_ClaimComplete |-> C03_ClaimComplete(pre, ev) /\ C03_ClaimCompleteH(pre, ev, gh),
    C03_RejectionsInert |-> C03_RejectionsInert(pre, ev, st),
-   C03_RefundAtExpiry |-> C03_RefundAtExpiry(pre, ev, st),
+   C03_RefundAtExpiry |-> C03_RefundAtExpiry(pre, ev, st) /\ C03_RefundAtExpiryH(pre, ev, st, gh),
    C03_ExactlyOnce |-> C03_ExactlyOnce(pre, ev, st, gh),
    C03_ScaleExact |-> Scale_Exact,
    C04_Escrow |-> C04_Escrow(st),
@@ -79,7 +79,7 @@ Clauses ==
    C04_Window |-> C04_Window(pre, ev, st),
    C04_ScaleExact |-> Scale_Exact,
    C13_QueueSound |-> C13_QueueSound(st),
-   C13_QueueComplete |-> C13_QueueComplete(st),
+   C13_QueueComplete |-> C13_QueueComplete(st) /\ C13_QueueCompleteH(st, gh),
    C13_OnceOnTime |-> C13_OnceOnTime(pre, ev, st, gh),
    C13_NoHalt |-> C13_NoHalt(ev),
    X03_CreateRecord |-> X03_CreateRecord(pre, ev, st),
